@@ -654,18 +654,37 @@ func runC02(c *core.Ctx) {
 	}
 	entries = append(entries, p.Func(rel, "EncodeOptions", "Encode"))
 	checkEncoderStateless(c, "C02", rel, entries)
-	c.Rule("C02.freshtoken", "Marshal allocates the token it threads through the whole encode itself (a local), so no token state survives from another call", 1)
+	c.Rule("C02.freshtoken", "the token the encoder hands to the sink is storage of the encode call itself: every *Token given to TokenSink.Step in Marshal and the functions it is built from (recursion stages included) is - once helper boundaries and state structs are resolved - the address of (a field of) a local variable of the exported Marshal, never a package-level variable, a pooled object or a field of something that outlives the call; so no token state survives from another encode", 1)
 	if fn := p.Func(rel, "", "Marshal"); fn != nil {
-		for _, ci := range core.Calls(fn) {
-			if cal := core.HelperCallee(fn, ci); cal != nil {
-				for _, a := range ci.Common().Args {
-					if isTokenPtr(a.Type()) {
-						_, isAlloc := core.Strip(a).(*ssa.Alloc)
-						c.Check(isAlloc, core.FuncKey(fn)+"#token-local", p.Pos(ci.Pos()), "fresh local token", "the token threaded through the encode is not a local of Marshal (recycled/shared token)")
-					}
+		core.WithCycleStages(func() {
+			rg := core.RegionOf(fn)
+			n := 0
+			for _, ci := range core.CallsR(fn) {
+				if !ci.Common().IsInvoke() || ci.Common().Method.Name() != "Step" || len(ci.Common().Args) != 1 || !isTokenPtr(ci.Common().Args[0].Type()) {
+					continue
 				}
+				n++
+				// the roots of the address, through fields of a state struct and helper parameters
+				roots := rg.AddrRoots(ci.Common().Args[0])
+				isAlloc := len(roots) > 0
+				var al *ssa.Alloc
+				for _, root := range roots {
+					a2, ok := root.(*ssa.Alloc)
+					if !ok || a2.Parent() != fn {
+						isAlloc = false
+					}
+					al = a2
+				}
+				if al == nil {
+					isAlloc = false
+					al = &ssa.Alloc{}
+				}
+				c.Check(isAlloc, fmt.Sprintf("%s#token-local%d", core.FuncKey(fn), n), p.Pos(ci.Pos()), "fresh local token", "the token handed to the sink is not (part of) a local variable of Marshal: a recycled or shared token carries state from one encode into another")
 			}
-		}
+			if n == 0 {
+				c.Undecided(core.FuncKey(fn)+"#token-steps", p.Pos(fn.Pos()), "no TokenSink.Step call found under Marshal")
+			}
+		})
 	}
 
 	c.Rule("C02.strcontent", "the decoder reads back every text string the encoder can write: in the DAG-CBOR token consumers no branch depends on the result of a function applied to the content of the token's text (Token.Str) - only on its length (budget) and on its membership in the set of keys seen - because the encoder writes keys and strings of arbitrary bytes verbatim and what it writes must decode to the same value", 1)
